@@ -643,7 +643,7 @@ func c05Lab(t *testing.T) {
 	if os.Getenv("VERIF_RACE") != "" {
 		return
 	}
-	V.Require("lab: rotation over real backends")
+	V.Require("lab: rotation over real backends", "lab: a backend answered a request without a To tag", "lab: tag-less request re-using the Call-ID and From tag of an earlier one")
 	var svcs []*stdSvc
 	for _, v := range []stdVariant{{Pool: 1}, {Pool: 3}, {Pool: 6}} {
 		s, err := newStdSvc(v)
@@ -667,9 +667,21 @@ func c05Lab(t *testing.T) {
 		send := func(b []byte) error { return ua.sendUDP(l.Addr, l.UDPPort, b) }
 		var seq []string
 		counts := map[string]int{}
+		// Requests that belong to no dialog (no To tag) rotate whatever else they
+		// share: a request sent again with the Call-ID and From tag of an earlier
+		// one (an INVITE repeated with credentials, its CANCEL, a re-used Call-ID),
+		// and whatever tag-less answers (100 Trying, a 401 without To tag) the
+		// backends gave to earlier ones.
+		var callIDs []string
 		for i := 0; i < n; i++ {
 			id := s.nextID("c05-")
-			wire := []byte(fmt.Sprintf("OPTIONS sip:svc.test SIP/2.0\r\nVia: SIP/2.0/UDP %s:5060;branch=z9hG4bK%s\r\nFrom: <sip:a@b>;tag=1\r\nTo: <sip:svc@nomatch.example>\r\nCall-ID: %s\r\nCSeq: 1 OPTIONS\r\nContent-Length: 0\r\n\r\n", ua.ip, id, id))
+			callID, method := id, rapid.SampledFrom([]string{"OPTIONS", "OPTIONS", "INVITE", "INVITE", "MESSAGE", "CANCEL", "REGISTER"}).Draw(rt, "method")
+			if len(callIDs) > 0 && rapid.IntRange(0, 2).Draw(rt, "Call-ID and From tag of an earlier request") == 0 {
+				callID = callIDs[rapid.IntRange(0, len(callIDs)-1).Draw(rt, "which")]
+				V.Class("lab: tag-less request re-using the Call-ID and From tag of an earlier one")
+			}
+			callIDs = append(callIDs, callID)
+			wire := []byte(fmt.Sprintf("%s sip:svc.test SIP/2.0\r\nVia: SIP/2.0/UDP %s:5060;branch=z9hG4bK%s\r\nFrom: <sip:a@b>;tag=1\r\nTo: <sip:svc@nomatch.example>\r\nCall-ID: %s\r\nCSeq: %d %s\r\nContent-Length: 0\r\n\r\n", method, ua.ip, id, callID, i+1, method))
 			s.model.learnRequest(s.model.transport(entry, "udp"), ua.ip, &AMsg{IsReq: true, Hdrs: []AHdr{{Kind: hVia, Vias: []AVia{{Host: ua.ip}}}}})
 			V.Journal(t.Name()+"/lab-rotation", map[string]any{"backends": k, "request": i + 1, "of": n, "so_far": seq})
 			s.in.expect(wire)
@@ -687,6 +699,24 @@ func c05Lab(t *testing.T) {
 			b := fmt.Sprintf("%s:%d", got[0].ep.ip, got[0].ep.port)
 			seq = append(seq, b)
 			counts[b]++
+			if got[0].tcp == nil && rapid.IntRange(0, 2).Draw(rt, "the backend answers without a To tag") == 0 {
+				code, reason := 100, "Trying"
+				if rapid.Bool().Draw(rt, "401") {
+					code, reason = 401, "Unauthorized"
+				}
+				resp := buildResponse(got[0].msg, code, reason, "", "")
+				bep := got[0].ep
+				bsend := func(x []byte) error { return bep.sendUDP(l.Addr, l.UDPPort, x) }
+				s.in.expect(resp)
+				bsend(resp)
+				if _, err := s.in.settle(bsend, 1); err != nil {
+					if _, lost := err.(labLost); lost {
+						failf(rt, "%v", err)
+					}
+					V.HarnessError(rt, "%v", err)
+				}
+				V.Class("lab: a backend answered a request without a To tag")
+			}
 			if len(seq) >= k {
 				w := map[string]bool{}
 				for _, x := range seq[len(seq)-k:] {
